@@ -106,6 +106,47 @@ Proof.
   destruct (allow && (s =? 0)); discriminate.
 Qed.
 
+(** round_storage_bytes_to_gib grants the LEAST whole number of GiB that covers the byte count *)
+Theorem round_storage_least b : 0 <= b ->
+  0 <= round_storage b /\ b <= round_storage b * gib /\
+  (forall g, b <= g * gib -> round_storage b <= g) /\ (0 < b -> (round_storage b - 1) * gib < b).
+Proof.
+  intros Hb. unfold round_storage, gib.
+  pose proof (cdiv_spec b 1073741824 ltac:(lia)) as Hc.
+  repeat split.
+  - destruct (Z_lt_le_dec (cdiv b 1073741824) 0); [nia | assumption].
+  - lia.
+  - intros g Hg. apply cdiv_least; lia.
+  - intros _. lia.
+Qed.
+
+(** the storage grant is the least admissible one: it covers the request, respects the 10 GiB minimum (zero only for an
+    allowed zero request), never exceeds the cloud maximum, and no admissible whole-GiB grant is smaller *)
+Theorem storage_gib_least max_gib s allow g : 0 <= s -> 10 <= max_gib -> storage_gib max_gib s allow = Some g ->
+  storage_grant_ok s allow g /\ g <= max_gib /\ (forall g', storage_grant_ok s allow g' -> g <= g').
+Proof.
+  unfold storage_gib, storage_grant_ok. intros Hs Hmax H.
+  destruct (s >? max_gib * gib) eqn:E1; [discriminate|].
+  assert (Hle : s <= max_gib * gib) by lia.
+  destruct (allow && (s =? 0)) eqn:E2.
+  - inversion H; subst g. apply andb_true_iff in E2. destruct E2 as [-> E2]. apply Z.eqb_eq in E2. subst s.
+    assert (cdiv 0 gib = 0) as -> by reflexivity.
+    split; [split; [unfold gib; lia | right; repeat split] |].
+    split; [lia|]. intros g' [Hg' _]. unfold gib in Hg'. lia.
+  - assert (Hg : g = round_storage (Z.max (10 * gib) s)) by (injection H as <-; reflexivity).
+    clear H. subst g.
+    pose proof (round_storage_least (Z.max (10 * gib) s) ltac:(unfold gib; lia)) as (_ & R2 & R3 & _).
+    set (r := round_storage (Z.max (10 * gib) s)) in *.
+    assert (R10 : 10 <= r).
+    { destruct (Z_lt_le_dec r 10); [|assumption]. unfold gib in *. nia. }
+    split; [split; [unfold gib in *; lia | left; exact R10] |].
+    split.
+    + apply R3. unfold gib in *. nia.
+    + intros g' [Hc [H10 | (Ha & Hz & _)]].
+      * apply R3. unfold gib in *. nia.
+      * subst allow s. cbn in E2. discriminate.
+Qed.
+
 (** ** PoolConfig.convert_requests_to_resources *)
 Theorem convert_sound max_gib mpc wc c m s gc gm gs :
   0 < mpc -> 0 <= s -> 10 <= max_gib -> convert max_gib mpc wc c m s = Some (gc, gm, gs) ->
